@@ -479,6 +479,8 @@ def oracle_circ(case):
         admm, sv, Aop, C_list = _build_circ(case)
         x = sv.solve(admm.x)
     except Exception as e:  # noqa: BLE001
+        if isinstance(e, ValueError) and case["f"] is not None and case["f"]["W"] is not None:
+            return None  # weighted losses are outside the solver's class and rejected (repo 62f467f)
         return {"unexpected_error": repr(e)[:200]}
     res = _circ_residual(case, admm, Aop, C_list, x)
     if not np.all(np.isfinite(np.array(x))) or res > 1e-8:
@@ -623,6 +625,8 @@ def oracle_block(case):
         admm, sv, AA, C_list = _build_block(case)
         x = sv.solve(admm.x)
     except Exception as e:  # noqa: BLE001
+        if isinstance(e, ValueError) and case["kind"] == "fblock" and case["W"] is not None:
+            return None  # weighted losses are rejected (repo 62f467f)
         return {"unexpected_error": repr(e)[:200]}
     res = _block_documented(case, admm, AA, C_list, x)
     if not np.all(np.isfinite(np.array(x))) or res > 1e-8:
